@@ -29,6 +29,18 @@ class InducedSet:
         "Induced set cannot be computed\n"+
         "Line is not connected to a GFA instance\n"+
         "Line: {}".format(self))
+    if getattr(self, "_computing_induced_set", False):
+      raise gfapy.InconsistencyError(
+        "Induced set cannot be computed\n"+
+        "The group contains itself, directly or through other groups\n"+
+        "Line: {}".format(self))
+    self._computing_induced_set = True
+    try:
+      return self._compute_induced_segments_set()
+    finally:
+      self._computing_induced_set = False
+
+  def _compute_induced_segments_set(self):
     segments_set = list()
     for item in self.items:
       if isinstance(item, str):
